@@ -1366,3 +1366,54 @@ fn region(after: &Dbg, t: &Target) -> &'static str {
         },
     }
 }
+
+/// Execute the scenario's script through another transport (no oracle): used by C14's
+/// transport-independence comparison.
+pub fn run_delivery(cap: &Capture, scn: &DebugScenario, transport: &Transport, sep_seed: u64, script: &[Item]) -> Outcome {
+    let delivery = deliver(script, transport, sep_seed);
+    let session = Session {
+        image: Image::Source(scn.program.render()),
+        stack: scn.stack,
+        minimal: scn.minimal,
+        debug: Some(DebugCfg {
+            arg: delivery.arg,
+            terminal: delivery.terminal,
+        }),
+        stdin: delivery.stdin,
+        fuel: 4 * (120_000 + script.len() as u64 + 1) + 64,
+        max_idle: 24,
+        log_exec: true,
+    };
+    run_session(cap, &session)
+}
+
+/// The meaning of a session, independent of ticks and of how commands arrived: accepted
+/// commands, rejected lines, pause snapshots, instruction counts between them.
+pub fn meaning(outcome: &Outcome) -> Vec<String> {
+    let mut out = Vec::new();
+    let mut execs = 0u64;
+    for e in &outcome.events {
+        match e {
+            Event::Exec { .. } => execs += 1,
+            Event::Pause(p) => {
+                out.push(format!(
+                    "pause execs={} regs={:04x?} pc={:04x} cc={} mem={:04x?} bps={:04x?} init_ok={}",
+                    execs,
+                    p.regs.reg,
+                    p.regs.pc,
+                    p.regs.cc,
+                    p.mem_diff,
+                    p.breakpoints,
+                    p.init_mem_diff.is_empty()
+                ));
+            }
+            Event::Cmd(text) => out.push(format!("cmd {}", text)),
+            Event::CmdError(text) => out.push(format!("error {}", text)),
+        }
+    }
+    out.push(format!("end {} execs={}", outcome.end.label(), execs));
+    if let Some((regs, _)) = &outcome.fin {
+        out.push(format!("final regs={:04x?} pc={:04x} cc={}", regs.reg, regs.pc, regs.cc));
+    }
+    out
+}
